@@ -115,9 +115,9 @@ type workerOut struct {
 }
 
 type crashInfo struct {
-	idx    int
-	seed   uint64
-	stderr string
+	idx     int
+	seed    uint64
+	stderr  string
 	profile string
 }
 
@@ -252,16 +252,16 @@ func matchKnown(kf []knownFinding, prop string, v *kit.Violation) *knownFinding 
 
 func main() {
 	var (
-		prop     = flag.String("property", "", "property id")
-		tier     = flag.String("tier", os.Getenv("VERIF_TIER"), "quick|thorough")
-		replay   = flag.String("replay", "", "replay file")
-		runsFlag = flag.Int("runs", 0, "override number of runs")
-		budget   = flag.Int("budget", 0, "override wall budget (s)")
-		workers  = flag.Int("workers", 0, "worker processes")
-		profile  = flag.String("profile", "", "only this profile")
-		noEvid   = flag.Bool("no-evidence", false, "do not write evidence (mutation sweeps)")
-		selftest = flag.Int("selftest", -1, "determinism self-test seeds (default per tier)")
-		race     = flag.Bool("race", false, "build engine with -race")
+		prop      = flag.String("property", "", "property id")
+		tier      = flag.String("tier", os.Getenv("VERIF_TIER"), "quick|thorough")
+		replay    = flag.String("replay", "", "replay file")
+		runsFlag  = flag.Int("runs", 0, "override number of runs")
+		budget    = flag.Int("budget", 0, "override wall budget (s)")
+		workers   = flag.Int("workers", 0, "worker processes")
+		profile   = flag.String("profile", "", "only this profile")
+		noEvid    = flag.Bool("no-evidence", false, "do not write evidence (mutation sweeps)")
+		selftest  = flag.Int("selftest", -1, "determinism self-test seeds (default per tier)")
+		race      = flag.Bool("race", false, "build engine with -race")
 		keepGoing = flag.Bool("no-early-stop", false, "do not stop the batch at the first violation")
 	)
 	genManifest := flag.Bool("gen-manifest", false, "print MANIFEST.json generated from the registry")
@@ -806,28 +806,28 @@ func doCheck(spec *kit.PropertySpec, tier string, runsOverride, budgetOverride, 
 	// ---- evidence
 	if !noEvidence {
 		cov := map[string]any{
-			"evaluations":         evals,
-			"distinct_nontrivial": len(distinct),
-			"rule":                spec.Rule,
-			"samples":             samples,
-			"runs_per_hour":       int(float64(evals) / wall * 3600),
-			"sim_seconds_total":   float64(simNs) / 1e9,
-			"sim_steps_total":     steps,
-			"choices_total":       choices,
-			"faults_fired":        faults,
-			"probes":              probes,
-			"metrics":             metrics,
-			"unreached_probes":    unreached,
-			"runs_per_profile":    perProfile,
-			"components_real":     spec.Real,
-			"components_stubbed":  spec.Stubbed,
-			"determinism_selftest": map[string]any{"seeds_compared": stCompared, "diverged": diverged},
-			"engine":              spec.Engine,
-			"engine_build":        repoBuildID(),
-			"workers":             nWorkers,
-			"distinct_measure":    "sha256 of the run's full event log (every delivery, fault, operation and observation), counted over runs the engine marked non-trivial",
+			"evaluations":            evals,
+			"distinct_nontrivial":    len(distinct),
+			"rule":                   spec.Rule,
+			"samples":                samples,
+			"runs_per_hour":          int(float64(evals) / wall * 3600),
+			"sim_seconds_total":      float64(simNs) / 1e9,
+			"sim_steps_total":        steps,
+			"choices_total":          choices,
+			"faults_fired":           faults,
+			"probes":                 probes,
+			"metrics":                metrics,
+			"unreached_probes":       unreached,
+			"runs_per_profile":       perProfile,
+			"components_real":        spec.Real,
+			"components_stubbed":     spec.Stubbed,
+			"determinism_selftest":   map[string]any{"seeds_compared": stCompared, "diverged": diverged},
+			"engine":                 spec.Engine,
+			"engine_build":           repoBuildID(),
+			"workers":                nWorkers,
+			"distinct_measure":       "sha256 of the run's full event log (every delivery, fault, operation and observation), counted over runs the engine marked non-trivial",
 			"known_findings_matched": countPrefix(lines, "KNOWN-FINDING"),
-			"harness_trouble":     trouble,
+			"harness_trouble":        trouble,
 		}
 		if spec.Assumptions == nil {
 			spec.Assumptions = []string{}
@@ -985,13 +985,13 @@ func printManifest() {
 	}
 	hooks := kit.Hooks
 	m := map[string]any{
-		"version":   1,
-		"setup_cmd": "./setup.sh",
-		"hooks":     hooks,
-		"engines":   engs,
-		"checks":    checks,
+		"version":        1,
+		"setup_cmd":      "./setup.sh",
+		"hooks":          hooks,
+		"engines":        engs,
+		"checks":         checks,
 		"not_applicable": na,
-		"notes": "Deterministic simulation with fault injection. Every check rebuilds its engine from /repo's working tree with -tags verif, runs seeded simulated executions on worker processes (one tape of decisions per run), minimises and replays failures in a fresh process. exit 0 held / exit 1 VIOLATION (reproduced) / exit 2 harness trouble. VERIF_SEED and VERIF_TIER honoured.",
+		"notes":          "Deterministic simulation with fault injection. Every check rebuilds its engine from /repo's working tree with -tags verif, runs seeded simulated executions on worker processes (one tape of decisions per run), minimises and replays failures in a fresh process. exit 0 held / exit 1 VIOLATION (reproduced) / exit 2 harness trouble. VERIF_SEED and VERIF_TIER honoured.",
 	}
 	b, _ := json.MarshalIndent(m, "", " ")
 	fmt.Println(string(b))
